@@ -839,13 +839,16 @@ def run(ctx):
     # ------------------------------------------------------------------ lexical space of the numeric converters
     lexstat = {}
 
+    def stat(stream):
+        return lexstat.setdefault(stream, {'valid': 0, 'invalid': 0, 'invalid_accepted_by_lenient_python_parser': 0, 'near_miss_classes': {},
+                                           'valid_from_near_miss_generator': 0, 'skipped': 0})
+
     def judge(kind, stream, label, s, res, want, value_of, shown=None):
         """EVERY case of a lexical stream is judged here, on the implementation's answer alone:
              want is None  (outside the lexical space) -> the converter must refuse (ValueError / ArithmeticError / OverflowError)
              otherwise                                 -> accepted, and value_of(res) is None (right value) or says what is wrong.
            Returns 'skip' | 'fail' | 'rejected' | 'accepted'."""
-        st = lexstat.setdefault(stream, {'valid': 0, 'invalid': 0, 'invalid_accepted_by_lenient_python_parser': 0, 'near_miss_classes': {},
-                                         'valid_from_near_miss_generator': 0, 'skipped': 0})
+        st = stat(stream)
         if is_skip(res):
             st['skipped'] += 1
             return 'skip'
@@ -1117,11 +1120,13 @@ def run(ctx):
     cases, fl, sl, nclaimed, nover = [], [], [], 0, 0
     for (label, s), (r, back) in zip(dur_lab, impl['dur_lex']):
         want = ref_dur(s)
-        over = want is not None and want >= DUR_MAX - US
+        # at timedelta.max the seconds field may be rounded over the bound by float() (binary64 spacing there is 2^-6 s)
+        over = want is not None and want >= DUR_MAX - US - want / (1 << 52)
         if over and is_reject(r):
             nover += 1
-            lexstat.setdefault('dur-lex', {}).setdefault('valid_beyond_timedelta_max_refused', 0)
-            lexstat['dur-lex']['valid_beyond_timedelta_max_refused'] += 1
+            stat('dur-lex').setdefault('valid_beyond_timedelta_max_refused', 0)
+            stat('dur-lex')['valid_beyond_timedelta_max_refused'] += 1
+            stat('dur-lex')['valid'] += 1
             v = 'overflow'
         else:
             def dur_value(r, want=want):
